@@ -59,6 +59,12 @@ def run_case(case):
 
     def mk_cfg(contacts):
         def cfg(d, ca):
+            if case.get('scene') == 'linked-files' and not os.path.isdir(d + '/certs'):
+                # the key and certificate paths are symbolic links to files kept elsewhere (not there yet): mode and owner are those of the files
+                os.makedirs(d + '/certs')
+                os.makedirs(d + '/elsewhere')
+                for f in ('c0_ecdsa-p256.pk.pem', 'c0_ecdsa-p256.crt.pem'):
+                    os.symlink('../elsewhere/' + f, d + '/certs/' + f)
             if case.get('scene') == 'setgid-dir' and not os.path.isdir(d + '/certs'):
                 # files created in a set-group-ID directory inherit its group: the configured group must be applied all the same
                 os.makedirs(d + '/certs')
@@ -84,6 +90,16 @@ def run_case(case):
                     out = {'include': ['conf.d/*.toml'] if case['split'] == 3 else ['conf.d/10-modes.toml', 'conf.d/20-renew.toml', 'conf.d/30-empty.toml']}
                 out.update(c)
                 return out
+            if case.get('scene') == 'bad-hook-output':
+                # c0's post-operation hook cannot create its output file (tolerated: the attempt is over); c1 is issued later in the same
+                # process (its first attempt is made to fail) and its files are created after that
+                with open(d + '/hookplan.json', 'w') as f:
+                    json.dump({'exit': {'h_late': [1]}}, f)
+                badout = C.rec_hook('h_badout', ['post-operation'], d + '/hooks.log', extra={'stdout': d + '/no/such/dir/out.txt'})
+                late = C.rec_hook('h_late', ['challenge-http-01'], d + '/hooks.log', plan=d + '/hookplan.json')
+                return S.std_config(d, ca, [{'name': 'c0', 'identifiers': S.ids('m%d.example.org' % case['i']), 'kp_reuse': False, 'hooks': ['h_all', 'h_badout']},
+                                            {'name': 'c1', 'identifiers': S.ids('n%d.example.org' % case['i']), 'kp_reuse': False, 'hooks': ['h_late', 'h_all']}],
+                                    accounts=[{'name': 'acc1', 'contacts': contacts}], global_extra=g, extra_hooks=[badout, late])
             return S.std_config(d, ca, [{'name': 'c0', 'identifiers': S.ids('m%d.example.org' % case['i']), 'kp_reuse': case['kp_reuse']}],
                                 accounts=[{'name': 'acc1', 'contacts': contacts}], global_extra=g)
         return cfg
@@ -101,7 +117,7 @@ def run_case(case):
                 os.chown(d + '/certs/' + f, FOREIGN, FOREIGN)
     n_ok = lambda n: (lambda hooks, log: len(S.successes(hooks)) >= n or len([h for h in hooks if C.hook_event(h) == 'post-operation']) >= n + 2)
     phases = [
-        {'cfg': mk_cfg(['a@example.org']), 'stop': n_ok(2), 'timeout': 60, 'env': None},
+        {'cfg': mk_cfg(['a@example.org']), 'stop': n_ok(2 if case.get('scene') != 'bad-hook-output' else 4), 'timeout': 60, 'env': None},
         {'cfg': mk_cfg(['b@example.org']), 'before': rm_cert, 'stop': n_ok(1), 'timeout': 60},
     ]
     # the umask is a property of the daemon process
@@ -243,6 +259,13 @@ def run(tier):
             n1 = DUAL[i % len(DUAL)]
             c.update({'pk_file_user': n1, 'pk_file_group': n1} if i % 12 == 4 else {'cert_file_user': n1, 'pk_file_group': n1, 'cert_file_group': r.choice(GROUPS), 'pk_file_user': r.choice(USERS)})
         c['split'] = (1 + (i // 5) % 3) if c['split'] else 0
+        if i % 16 in (5, 13):
+            c['scene'] = 'linked-files' if i % 16 == 5 else 'bad-hook-output'
+            c.update({'pk_file_user': r.choice(USERS[1:4]), 'pk_file_group': r.choice(GROUPS[1:4]), 'cert_file_user': r.choice(USERS[1:4]), 'cert_file_group': r.choice(GROUPS[1:4]),
+                      'kp_reuse': False, 'split': False})
+            if c['scene'] == 'bad-hook-output':
+                # a strict umask and modes with bits the umask has to remove
+                c.update({'umask': r.choice([0o077, 0o027]), 'pk_file_mode': r.choice([0o640, 0o660, 0o644]), 'cert_file_mode': r.choice([0o644, 0o664, None])})
         if i % 8 in (3, 7):
             # scenes in which a file does not naturally get the daemon's own ids; every owner option is set, the daemon's own ids included
             c['scene'] = 'setgid-dir' if i % 8 == 3 else 'foreign-owner'
@@ -275,7 +298,7 @@ def run(tier):
             chk.violation('C13|%s|%s' % (cls, what.split(' ')[0]), what + ' [%s]' % {k: v for k, v in c.items() if k != 'i'}, res, res.get('replay_dir'))
     probe_sweep(chk, tier, r)
     chk.rule = ('daemon runs: pk_file_mode / cert_file_mode from a boundary set (or unset) x umask {000,022,027,077} x user/group by name, by number or unset, '
-                'for key and certificate files, single-file and split configurations (one or several included [global] tables), set-group-ID directories and files left with a foreign owner; creation (first issuance, registration), rewrite (renewal, contact update); probe: full mode x umask '
+                'for key and certificate files, single-file and split configurations (one or several included [global] tables), set-group-ID directories, files left with a foreign owner, paths that are symbolic links, files created after a hook whose output file cannot be created; creation (first issuance, registration), rewrite (renewal, contact update); probe: full mode x umask '
                 'grid through the storage layer; distinct = configurations with at least one file creation observed')
     chk.assumptions = ['the checks run as root, so chown to arbitrary ids is possible', 'mode is required at creation only; on rewrite only "not more readable than asked" and the owner']
     code = chk.finish()
